@@ -276,3 +276,66 @@ func VH_C07_genbank_mutation_contig() {
 	op := vChoice("op", 2)
 	vC07MutationAt(false, op, o)
 }
+
+// vReplaceAfter replaces the n bytes that follow the first occurrence of marker by repl.
+func vReplaceAfter(text []byte, marker string, n int, repl []byte) []byte {
+	i := bytes.Index(text, []byte(marker)) + len(marker)
+	out := append([]byte{}, text[:i]...)
+	out = append(out, repl...)
+	return append(out, text[i+n:]...)
+}
+
+//verif:harness prop=C07 quick=8 thorough=8 merge=concrete timeout=1500
+//verif:bounds field values of the small valid record replaced by 1..3 (quick) / 1..5 (thorough) fully symbolic bytes: REFERENCE number, DBLINK value, CONTIG text, VERSION, feature location, qualifier value, date; and the LOCUS length replaced by large concrete values (10^18-1, 2^62, 2^63-1)
+func VH_C07_genbank_field_values() {
+	sh := vShard(8)
+	withOrigin := sh != 2
+	text := []byte(vSmallRecord(withOrigin))
+	var in []byte
+	if sh == 7 {
+		big := []string{"999999999999999999", "4611686018427387904", "9223372036854775807"}[vChoice("big", 3)]
+		in = vReplaceAfter(text, "X                 ", 10, []byte(big))
+	} else {
+		k := 1 + vChoice("k", 3+2*vTier())
+		if sh == 0 {
+			k = 2 + vChoice("k4", 3) // the REFERENCE number: 2..4 bytes (a sign and three digits, four digits)
+		}
+		v := vBytes("v", k)
+		for _, c := range v {
+			vAssume(vAnd(c != '\n', c != '\r')) // the line structure is kept; line edits are the mutation harness's job
+		}
+		switch sh {
+		case 0:
+			in = vReplaceAfter(text, "REFERENCE   ", 1, v)
+		case 1:
+			in = vReplaceAfter(text, "DBLINK      ", 14, v)
+		case 2:
+			in = vReplaceAfter(text, "CONTIG      ", 11, v)
+		case 3:
+			in = vReplaceAfter(text, "VERSION     ", 3, v)
+		case 4:
+			in = vReplaceAfter(text, "     source          ", 4, v)
+		case 5:
+			in = vReplaceAfter(text, "/mol_type=", 3, v)
+		default:
+			in = vReplaceAfter(text, "UNK ", 11, v)
+		}
+	}
+	var recs int
+	var seqs []gts.Sequence
+	var err error
+	p := vPanics(func() { recs, seqs, err = vScanAll(in, len(in)+1) })
+	vAssert("no-panic", !p)
+	if p {
+		return
+	}
+	vCover("field-scanned")
+	if err == nil && recs >= 1 {
+		// whatever the reader accepts, the writer must be able to write again
+		if gb, ok := seqs[0].(GenBank); ok {
+			pw := vPanics(func() { _ = gb.String() })
+			vAssert("accepted-record-writable", !pw)
+		}
+	}
+	vObserve("recs", recs)
+}
